@@ -3,6 +3,7 @@ import re
 
 from . import analysis as A
 from . import roles
+from . import tags
 from .c04 import role_get, role_insert, role_run_fn, _reaches_block
 from .mir import Site, Unverifiable, callee_is, callee_path, const_int, const_str, op_const, op_fn, op_local, op_place, place_fields
 
@@ -63,8 +64,15 @@ def r1(F, R):
         R.check((owner, "tags") in fields, f"classifier-reads/{owner.split('::')[1].lower()}-tags", cb,
                 f"default classifier reads {owner}.tags", f"default which_scenario ignores the tags of {owner}: @serial there is not honoured")
     R.check(strs == ["serial"], "classifier-tag-literal", cb, 'compares with "serial"', f"default classifier compares tags with {strs}")
+    # the searched iterator is the unconditional union of the three tag levels
+    searches = [(b, s, t) for b in bodies for s, t in b.calls(lambda t: callee_is(t, r"Iterator::(find|any|position|find_map)$"))]
+    R.check(len(searches) == 1, "classifier-search", cb, "one search over the tags", f"{len(searches)} searches in the classifier")
+    if len(searches) == 1:
+        sb, ss, st_ = searches[0]
+        tags.check_tag_union(F, R, sb, st_["args"][0], "classifier-tags", ss, "classifier's tag")
     # polarity: found => Serial, not found => Concurrent
-    mo = [(b, s, t) for b in bodies for s, t in b.calls(lambda t: callee_is(t, r"Option::<.*>::map_or$"))]
+    mo = [(b, s, t) for b in bodies for s, t in b.calls(lambda t: callee_is(t, r"Option::<.*>::map_or$"))
+          if b.locals[t["dest"]["l"]] == "runner::basic::ScenarioType"]
     ok_pol = False
     if len(mo) == 1:
         b, s, t = mo[0]
